@@ -1,10 +1,10 @@
 (* Property C03 -- rendered operands name exactly the locations the lifted IL touches.
-   Statements only; proofs are in Proofs/AccessProofs.v.  The rendered operands are Model/Static.v render_ops (tied
+   Statements only; proofs are in Proofs/AccessProofs.v and Proofs/ExecLoopProofs.v.  The rendered operands are Model/Static.v render_ops (tied
    to Instruction.render() on every run), their meaning is Static.place_of / op_read / op_write (README addressing
    rules), the IL is Model/Lift.v evaluated by Model/IL.v. *)
 From Coq Require Import ZArith NArith List Bool.
 From BE Require Import Model.TableTypes Gen.Tables Model.Regs Model.Decode Model.IL Model.Lift Model.Static Model.Spec
-  Proofs.AccessProofs.
+  Model.Emu Proofs.ExecProofs Proofs.AccessProofs Proofs.ExecMemProofs Proofs.ExecLoopProofs.
 Import ListNotations.
 Open Scope Z_scope.
 
@@ -47,6 +47,22 @@ Theorem C03_render_modes_are_lift_modes : forall i lops dm sm,
   end.
 Proof. exact render_modes_are_lift_modes. Qed.
 Print Assumptions C03_render_modes_are_lift_modes.
+
+(* counted runs, for EVERY count: executing MVL (m),(n) / MVLD (m),(n) - no prefix and each of the 15 prefixes, every m, n,
+   every I = 0 .. 65535 - reads, as data, exactly the cells the rendered operands denote (the addressing registers of both
+   modes and the I bytes of the source run, wrapping inside internal memory, ascending resp. descending) and writes exactly
+   the I bytes of the destination run, in run order; den_access is the documented access set the per-run oracle uses.
+   Hypotheses: byte memory, 14 scratch registers, I a 16-bit value *)
+Theorem C03_counted_run_access : forall opc, In opc [203; 207]%N ->
+  forall c, In c pre_choices -> forall n1 n2, (n1 < 256)%N -> (n2 < 256)%N -> forall addr s,
+  mem_wf s -> TW s -> (py_get (rg s) gI < 65536)%N ->
+  exists s' A rl,
+    exec_decoded (mk_pre c opc [OIMem 1 n1; OIMem 1 n2] 3) (first_byte c opc) addr s = XOk s' /\
+    den_access (mk_pre c opc [OIMem 1 n1; OIMem 1 n2] 3) s = Some A /\
+    rlog s' = rev rl ++ rlog s /\ (forall x, In x rl <-> In x (a_reads A)) /\
+    wlog s' = rev (a_writes A) ++ wlog s.
+Proof. intros opc [<- | [<- | []]]; [exact mvl_access | exact mvld_access]. Qed.
+Print Assumptions C03_counted_run_access.
 
 (* non-vacuity: (BP+PX) with BP=0xF0, PX=0x20 names internal byte 0x10 *)
 Example C03_example :
